@@ -21,7 +21,7 @@ def run_impl(case):
             r = cls.__from__(case["data"], options=o)
     except Exception as e:
         return core.classify_exc(e)
-    return ("ok", r)
+    return ("ok", core.freeze(r))
 
 
 PRELUDE = """
